@@ -567,7 +567,7 @@ fn coin_of(v: &Value) -> Coin {
 }
 
 impl Mt {
-    pub fn new(prefix: &str, contract: &str, time_ns: u64, height: u64) -> Mt {
+    pub fn new(prefix: &str, contract: &str, time_ns: u64, height: u64, chain_id: &str) -> Mt {
         let mut wasm = WasmKeeper::<Empty, Empty>::new_with_custom_address_generator(FixedAddr);
         let code_id = wasm.store_code(Addr::unchecked("creator"), Box::new(StakingC));
         Mt {
@@ -580,7 +580,7 @@ impl Mt {
             block: BlockInfo {
                 height,
                 time: Timestamp::from_nanos(time_ns),
-                chain_id: "osmosis-1".to_string(),
+                chain_id: chain_id.to_string(),
             },
             contract: contract.to_string(),
             prefix: prefix.to_string(),
